@@ -58,8 +58,9 @@ def readonly_append_unit(U):
 
 
 def from_fields_unit(U):
-    """MemoryStorage.from_fields: the storage is built from the times, the data of the fields in order, the first field
-    as template, the info and the REQUESTED write mode"""
+    """MemoryStorage.from_fields: the storage is built from the times, one frame per field in order holding the field's
+    data at the moment of the call (later changes of the field do not alter it), the first field as template, the info and
+    the REQUESTED write mode"""
     def body(it):
         cls = it.module_attr(it.load_module(MEM), "MemoryStorage")
         got = {}
@@ -69,7 +70,10 @@ def from_fields_unit(U):
 
         it.contracts[(MEM, "MemoryStorage.__init__")] = ctor
         grid = Instance(None, {"__eq__": lambda o: True}, name="grid")
-        fields = [Instance(None, {"data": Instance(None, {}, name=f"data{i}"), "grid": grid}, name=f"field{i}") for i in range(3)]
+        it.ctx.assume(N >= 1)
+        srcs = [sym_array(f"field{i}_data", (N,)) for i in range(3)]
+        snaps = [a.frozen() for a in srcs]
+        fields = [Instance(None, {"data": srcs[i], "grid": grid}, name=f"field{i}") for i in range(3)]
         times = [z3.Real(f"t{i}") for i in range(3)]
         info = {"key": "value"}
         mode = ("append", "truncate", "readonly", "truncate_once")[0]
@@ -77,14 +81,17 @@ def from_fields_unit(U):
         for mode in ("append", "truncate", "readonly", "truncate_once"):
             it.call(it.getattr(cls, "from_fields"), [times, fields], {"info": info, "write_mode": mode})
             out.append((mode, got.get("args"), got.get("kw")))
-        return out, fields, times, info
+        # later change of the source fields
+        for i, a in enumerate(srcs):
+            a.assign(slice(None), z3.Real(f"later_value{i}"))
+        return out, fields, times, info, snaps
 
     for p, res in enumerate(explore_paths(U, body)):
         P = prem_of(res.ctx)
         if res.outcome != "return":
             U.prove(f"from_fields.path{p}.returns_normally", P, z3.BoolVal(False), info={"exc": str(res.exc)})
             continue
-        out, fields, times, info = res.value
+        out, fields, times, info, snaps = res.value
         for mode, args, kw in out:
             allkw = dict(kw or {})
             names = ["times", "data", "info", "field_obj", "write_mode"]
@@ -92,9 +99,15 @@ def from_fields_unit(U):
                 allkw.setdefault(n_, v_)
             U.prove(f"from_fields.path{p}.write_mode_{mode}_is_forwarded", P, z3.BoolVal(allkw.get("write_mode") == mode))
             data = allkw.get("data")
-            U.prove(f"from_fields.path{p}[{mode}].times_data_template_info", P,
-                    z3.BoolVal(allkw.get("times") is times and isinstance(data, list) and len(data) == 3 and all(d is f.attrs["data"] for d, f in zip(data, fields))
-                               and allkw.get("field_obj") is fields[0] and allkw.get("info") is info))
+            ok = allkw.get("times") is times and isinstance(data, list) and len(data) == 3 and all(isinstance(d, NDArr) for d in data)
+            U.prove(f"from_fields.path{p}[{mode}].times_template_info_and_one_frame_per_field", P,
+                    z3.BoolVal(ok and allkw.get("field_obj") is fields[0] and allkw.get("info") is info))
+            if ok:
+                j = z3.Int("j")
+                for i, d in enumerate(data):
+                    # the frame is the field's data at the moment of the call, whatever happens to the field later
+                    U.prove(f"from_fields.path{p}[{mode}].frame{i}==data_of_field{i}_at_the_call_(later_changes_of_the_field_do_not_alter_it)", P + [j >= 0, j < N],
+                            to_z3(d.read((j,))) == to_z3(snaps[i]((j,))), info={"replay_payload": {"from_fields_alias": True}})
 
 
 def append_unit(U):
@@ -467,7 +480,7 @@ def bounded(tier, seed):
     res = native("storage.py", {"seed": seed, "n": n}, timeout=3000)
     if not res.get("ok"):
         raise RuntimeError(f"native driver failed: {res}")
-    return [{"name": "random_operation_sequences_vs_reference_model", "bound": f"{n} random sequences (<= 12 operations) of start_writing/append/end_writing/clear/read/extract on MemoryStorage, single fields and collections, all write modes, mixed dtypes",
+    return [{"name": "random_operation_sequences_vs_reference_model", "bound": f"storages built by from_fields from fields and collections (later changes of the sources and of frames read back); {n} random sequences (<= 12 operations) of start_writing/append/end_writing/clear/read/extract on MemoryStorage, single fields and collections, all write modes, mixed dtypes",
              "cases": res["cases"], "failures": res["failures"]}]
 
 
